@@ -33,6 +33,8 @@ ASSUMPTIONS = ["theorems are about exact real arithmetic",
                "fit optimality (C13_fit_is_least_squares_partial) is proved under the eigen-solver contract, not for LAPACK itself",
                "C13_tilted_contains_both uses Reals' cos / sin / acos for math.cos / math.sin / np.arccos"]
 IMPORTS = [("PW.model", "M_plane"), ("PW.model", "M_plane_ctor"), ("PW.proofs", "P_vec")]
+# theorems that only restate how the stacked models are defined (map of the single ones)
+DEFINITIONAL = ["C13_stacked_is_map_single", "C13_normal_and_offset_stack"]
 
 ATOL6 = 0.1 ** 6
 
@@ -164,6 +166,7 @@ def _tilt_cs(pl, newp, cop):
 def gen_cases(rng, n, tier):
     cases = [{"kind": "coord"}] + _structured_cases(rng, tier)
     full_budget = 3 if tier == "quick" else 12
+    full_exact_budget = 3 if tier == "quick" else 12
     for i in range(n):
         u = rng.random()
         sc = _scale(rng, tier)
@@ -171,7 +174,7 @@ def gen_cases(rng, n, tier):
             d = rng.choice([None, None, 3, 6, 8])
             atol = 0.1 ** (6 if d is None else d)
             nrm = _unit(rng) if rng.random() < 0.7 else [float(x) for x in rng.choice([[1, 0, 0], [0, -1, 0], [0, 0, 1]])]
-            k = rng.choice([0, 0, 0.3, -0.3, 3, -3, 10, 1000, -0.9 / atol])
+            k = rng.choice([0, 0, 0.3, -0.3, 0.9, -0.9, 0.9, -0.9, 1.1, -1.1, 1.1, -1.1, 3, -3, 10, 1000, -0.9 / atol])
             nrm = [x * (1 + k * atol) for x in nrm]
             if rng.random() < 0.05:
                 nrm = [0.0, 0.0, 0.0]
@@ -218,7 +221,13 @@ def gen_cases(rng, n, tier):
                     pts.append(list(a + rng.uniform(-3, 3) * t1 + rng.uniform(-3, 3) * t2 + off * np.array(nrm)))
                 if mode == "planar" and rng.random() < 0.5:
                     pts = [[rng.randint(-8, 8) / 2, rng.randint(-8, 8) / 2, 1.5] for _ in range(k)]
-            cases.append({"kind": "fit_" + mode, "points": [_sv(p, sc) for p in pts]})
+            c = {"kind": "fit_" + mode, "points": [_sv(p, sc) for p in pts]}
+            if _fit_tie(c["points"]):
+                c["kind"] += "_tie_oracle_only"  # the eigenbasis is not determined: judged by the oracle, skipped in Coq
+            cases.append(c)
+            if rng.random() < 0.04:
+                # fewer than two points (outside the property's domain): the model says LinAlgError
+                cases.append({"kind": "fit_too_few", "points": [_sv(grid_vec(rng), sc) for _ in range(rng.randint(0, 1))]})
         elif u < 0.88:
             exact = rng.random() < 0.4
             if exact:
@@ -244,6 +253,8 @@ def gen_cases(rng, n, tier):
             full = False
             if full_budget > 0 and not exact:
                 full, full_budget = True, full_budget - 1
+            elif full_exact_budget > 0 and exact:
+                full, full_exact_budget = True, full_exact_budget - 1
             cases.append({"kind": "tilted_full" if full else ("tilted_exact" if exact else "tilted"), "ref": _sv(ref, sc),
                           "normal": nrm, "new_point": _sv(newp, sc), "coplanar": _sv(cop, sc)})
         else:
@@ -380,6 +391,16 @@ def _eig_of(points):
     return w, v
 
 
+def _fit_tie(points):
+    if len(points) < 2:
+        return False
+    w, v = _eig_of(points)
+    if not (np.all(np.isfinite(w)) and np.all(np.isfinite(v))):
+        return True
+    sc = max(1e-300, float(np.max(np.abs(w))))
+    return min(abs(w[i] - w[j]) for i in range(3) for j in range(i)) <= 1e-7 * sc
+
+
 def coq_case(c, o):
     k = c["kind"]
     if k == "coord":
@@ -395,6 +416,9 @@ def coq_case(c, o):
     if k.startswith("fpv"):
         return "CFpv %s %s %s %s %s" % (_atol(c["decimals"]), qv(c["p1"]), qv(c["p2"]), qv(c["vector"]), _obs(o))
     if k.startswith("fit_"):
+        if len(c["points"]) < 2:
+            e = "(Eig3 0 0 0 (V3 1 0 0) (V3 0 1 0) (V3 0 0 1))"
+            return "CFit %s %s %s" % (coq_list(qv(p) for p in c["points"]), e, _obs(o))
         w, v = _eig_of(c["points"])
         if not (np.all(np.isfinite(w)) and np.all(np.isfinite(v))):
             return "CSkip"
@@ -499,8 +523,8 @@ def oracle(c, o):
         nn = math.sqrt(float(_dot(_F(c["normal"]), _F(c["normal"]))))
         err = abs(nn - 1)
         if "raise" in o:
-            return "rejected a normal that is unit to %r decimals (| |n| - 1 | = %g)" % (c["decimals"], err) if err < 0.5 * atol else None
-        if err > 2 * atol:
+            return "rejected a normal that is unit to %r decimals (| |n| - 1 | = %g)" % (c["decimals"], err) if err < 0.95 * atol else None
+        if err > 1.05 * atol:
             return "accepted a normal with | |n| - 1 | = %g > 0.1**%r" % (err, c["decimals"])
         if o["ref"] != c["ref"] or o["normal"] != c["normal"]:
             return "constructor changed the reference point or normal"
